@@ -70,6 +70,8 @@ package server
 //@ call Store.Subscribe#1 assert [C14] subErr == nil && code == sub#2.QoS
 //@ call Store.Subscribe#1 assert [C11] client.version == 5 && sub#2.ShareName != "" ==> client.opts.SharedSubAvailable
 //@ loop 3 step [C14] subErr != nil ==> suback.Payload[k#2] >= 128 && D.$subs == at(iter3, D.$subs)
+// — whatever kind of error the hook used for its verdict (a plain Go error counts as well as a *codes.Error)
+//@ loop 3 step [C14] !noErr(at(iter3, subReq.Subscriptions[sub.Topics[k#2].Name].Error)) ==> suback.Payload[k#2] >= 128 && D.$subs == at(iter3, D.$subs)
 //@ loop 3 step [C14 C11] suback.Payload[k#2] < 128 ==> D.$subs == at(iter3, D.$subs) + 1 && D.$lastSub == sub#2 && D.$lastSubClient == client.opts.ClientID && suback.Payload[k#2] == sub#2.QoS
 //@ loop 3 step [C14 C11] suback.Payload[k#2] >= 128 ==> R.$gets == at(iter3, R.$gets) && client.queueStore.$adds == at(iter3, client.queueStore.$adds)
 //@ loop 3 step [C11] client.version == 5 && sub#2.ShareName != "" && !client.opts.SharedSubAvailable ==> suback.Payload[k#2] >= 128 && D.$subs == at(iter3, D.$subs)
